@@ -17,6 +17,7 @@ if request.BookingIntersects != nil {
 through the real server).  A booking is any message type `μ` with its `booked` period.
 -/
 namespace ScVerif.C08
+open ScVerif.C09
 open ScVerif.C18 (Period periodsIntersect)
 
 /-- the include option built from `request.BookingIntersects` (`none` = field not set: no `WithInclude`) -/
@@ -34,5 +35,30 @@ def bookingListed {μ : Type} (booked : μ → Option Period) (q : Option Period
   match q with
   | none => true
   | some qp => periodsIntersect (booked b) (some qp)
+
+/-- A `ListBookingsRequest` as far as `ListBookings` / `PullBookings` read it: `booking_intersects`, `read_mask`
+(as the projection it stands for) and `updates_only`.  Both handlers start from
+`WithReadMask(request.ReadMask)`, `PullBookings` adds `WithUpdatesOnly(request.UpdatesOnly)`, and both append
+the same `WithInclude` when the request has a period. -/
+structure BookingReq (μ : Type) where
+  intersects : Option Period
+  proj : μ → μ
+  updatesOnly : Bool
+
+/-- What `PullBookings` sends for a request, given the seed order and the changes the collection publishes
+after the subscription: `Collection.Pull`'s seed through the read mask (nothing with `updates_only`), then
+every published change through include ▸ read mask; the handler's `for change := range ...` loop forwards
+each one unchanged. -/
+def bookingPullStream {ι μ : Type} [DecidableEq ι] (booked : μ → Option Period) (req : BookingReq μ) (t' : Nat)
+    (order : List (ι × μ)) (published : List (Change ι μ)) : List (Change ι μ) :=
+  (if req.updatesOnly then [] else (seedFrom t' order).map (maskChange req.proj)) ++
+    published.filterMap (pullEvent (bookingInclude booked req.intersects) req.proj)
+
+/-- What the client holds before the first live event: nothing - the seed builds it - or, with
+`updates_only`, `ListBookings` with the same request taken at the moment of subscription. -/
+def bookingBase {ι μ : Type} [DecidableEq ι] (booked : μ → Option Period) (req : BookingReq μ)
+    (items : List (ι × μ)) : View ι μ :=
+  if req.updatesOnly then projView req.proj (viewOf (itemSlice (bookingInclude booked req.intersects) items))
+  else View.empty
 
 end ScVerif.C08
